@@ -243,3 +243,16 @@ def replay_history(rp, drv, oracles, extra):
     for what in c.d:
         print('disagreement', what)
     return 1 if (c.v or c.d) else 0
+
+
+def hard_exit(rc):
+    """replay runs the real code in the main process; a restore that failed (missing chunk) leaves replicat's loader threads blocked
+    on a slot of the closed event loop, which would block interpreter shutdown forever — leave without joining them"""
+    import os
+    import sys
+    import threading
+    sys.stdout.flush()
+    sys.stderr.flush()
+    if any(t is not threading.main_thread() and t.is_alive() and not t.daemon for t in threading.enumerate()):
+        os._exit(rc)
+    return rc
